@@ -2,6 +2,7 @@
    Proofs/LogProofs.v.  [abslog] is a compacted prefix (base index, base term) followed by
    entries with consecutive indexes; [abs_ms] reads a MemoryStorage as one. *)
 From Coq Require Import List NArith.
+From RaftV Require AppendRefine AckRefine SliceRefine.
 From RaftV Require Import Base Types Quorum Progress Tracker Storage Log Raft RawNode QuorumProofs RaftMono RaftRouting NodeProps PreVoteProofs LocalProofs FlowProofs LogProofs ConfProofs.
 Import ListNotations.
 Open Scope N_scope.
@@ -104,3 +105,27 @@ Theorem C18_slice : forall st l lo hi maxSize es,
 Proof. exact l_slice_contig. Qed.
 Print Assumptions C18_slice.
 
+
+
+(* a persistence acknowledgement never changes the logical log (Proofs/AckRefine.v): when the entries
+   it names are in stable storage, as the Ready contract guarantees for an acknowledgement that is
+   accepted ((index, term) still matches the unstable log), raftLog.stableTo moves the boundary
+   between storage and the unstable tail and nothing else *)
+Theorem C18_ack_keeps_logical_log : forall st l index term,
+  AppendRefine.l_wf st l -> u_snapshot (l_unstable l) = None ->
+  (forall k e, nth_error (u_entries (l_unstable l)) k = Some e -> u_offset (l_unstable l) + N.of_nat k <= index ->
+     nth_error (ms_ents st) (N.to_nat (u_offset (l_unstable l) + N.of_nat k - ms_dummy_index st - 1)) = Some e) ->
+  (u_offset (l_unstable l) + nlen (u_entries (l_unstable l)) = index + 1 -> ms_last_index st = index) ->
+  AppendRefine.l_wf st (l_stable_to l index term) /\
+  AppendRefine.lview st (l_stable_to l index term) = AppendRefine.lview st l.
+Proof. exact AckRefine.stable_to_keeps_view. Qed.
+Print Assumptions C18_ack_keeps_logical_log.
+
+(* range queries answer from the logical log (Proofs/SliceRefine.v): the k-th entry that
+   raftLog.slice(lo, hi, maxSize) returns is the entry the logical log holds at index lo + k, whether
+   it comes from stable storage, from the unstable tail, or the range straddles the boundary *)
+Theorem C18_slice_returns_logical_log : forall st l lo hi maxSize es,
+  AppendRefine.l_wf st l -> l_slice st l lo hi maxSize = Ok (es, ENone) ->
+  forall k e, nth_error es k = Some e -> a_at (AppendRefine.lview st l) (lo + N.of_nat k) = Some e.
+Proof. exact SliceRefine.l_slice_view. Qed.
+Print Assumptions C18_slice_returns_logical_log.
